@@ -59,6 +59,10 @@ pub struct Compiler {
 
     /// Source file path for stack traces (propagated to all nested chunks)
     source_file: Option<String>,
+
+    /// Enums declared so far in the open scopes of this function: (name, scope depth).
+    /// A repeated `enum E` at the same depth merges into the existing object.
+    declared_enums: Vec<(JsString, u16)>,
 }
 
 /// Context for a class being compiled (for private field handling)
@@ -116,6 +120,7 @@ impl Compiler {
             next_class_brand: 0,
             track_completion: false,
             source_file: None,
+            declared_enums: Vec::new(),
         }
     }
 
@@ -266,6 +271,8 @@ impl Compiler {
     pub(crate) fn emit_pop_scope(&mut self) {
         self.builder.emit(Op::PopScope);
         self.scope_depth = self.scope_depth.saturating_sub(1);
+        let depth = self.scope_depth;
+        self.declared_enums.retain(|(_, d)| *d <= depth);
     }
 
     /// Push a loop context
